@@ -88,6 +88,42 @@ static void mode_pfor(vf::Ctx& c)
 	if (c.want_sample()) c.sample(vf::fmt("parallel_for(%d, %d, f, n) for n = 1..12", i0, i1));
 }
 
+// several application threads calling parallel_for through the same call site (same functor type) at once, each on its
+// own counters (beyond the stated quantifier, which has one caller; a parallel_for that keeps per-call state in a
+// function-static fails here)
+static void mode_pfor_mt(vf::Ctx& c)
+{
+	int callers = c.rng.range(2, 4), rounds = (int)c.opt->param("rounds", 30);
+	uint64_t seed = c.rng.next();
+	c.desc(vf::fmt("%d application threads x %d rounds of parallel_for(i0, i1, f, n) through one call site, private counters", callers, rounds));
+	std::atomic<int> bad(0);
+	std::mutex mu;
+	std::string why;
+	std::vector<std::thread> th;
+	for (int t = 0; t < callers; t++)
+		th.emplace_back([&, t]() {
+			vf::Rng r(vf::mix(seed, t));
+			for (int k = 0; k < rounds; k++) {
+				int i0 = r.range(-3, 20), i1 = i0 + r.range(0, 40), nth = r.range(1, 8);
+				std::vector<std::atomic<int> > counts(64);
+				for (auto& x : counts) x = 0;
+				std::atomic<int> outside(0);
+				std::atomic<int>* cp = counts.data();
+				struct F { std::atomic<int>* cnt; std::atomic<int>* out; void operator()(int i) const { int j = i + 3; if (j < 0 || j >= 64) (*out)++; else cnt[j]++; } };
+				F f = {cp, &outside};
+				Thread::parallel_for(i0, i1, f, nth);
+				bool ok = outside == 0;
+				for (int i = -3; i < 61 && ok; i++) ok = counts[i + 3] == ((i >= i0 && i < i1) ? 1 : 0);
+				if (!ok) { bad++; std::lock_guard<std::mutex> l(mu); if (why.empty()) why = vf::fmt("caller %d round %d: parallel_for(%d, %d, f, %d) did not invoke every index exactly once", t, k, i0, i1, nth); }
+			}
+		});
+	for (auto& x : th) x.join();
+	if (bad) c.fail("parallel_for.concurrent-callers", vf::fmt("%d wrong; ", (int)bad) + why);
+	c.evals((uint64_t)callers * rounds);
+	c.distinct(seed);
+	if (c.want_sample()) c.sample(c.curdesc());
+}
+
 static void mode_pfor_big(vf::Ctx& c)
 {
 	int i0 = c.rng.range(-2000, 2000), len = c.rng.chance(0.3) ? c.rng.range(0, 70) : c.rng.range(0, 2000), nth = c.rng.chance(0.5) ? c.rng.range(1, 16) : c.rng.range(1, 64);
@@ -105,21 +141,32 @@ struct Worker : public Thread
 	std::atomic<int>* runs;
 	int* out;
 	int value, body;
-	Worker() : runs(0), out(0), value(0), body(0) {}
-	Worker(std::atomic<int>* r, int* o, int v, int b) : runs(r), out(o), value(v), body(b) {}
+	Worker() : runs(0), out(0), value(0), body(0), finishSaw(0) {}
+	Worker(std::atomic<int>* r, int* o, int v, int b) : runs(r), out(o), value(v), body(b), finishSaw(0) {}
 	void run()
 	{
 		busy(body);
 		*out = value;   // plain write, read by the creator after join()
 		(*runs)++;
 	}
+	// the hook documented as running "after run() returned and the thread was marked finished"
+	int finishSaw;   // 0 = hook not called, 1 = finished() was true inside it, -1 = it was false
+	void finish() { finishSaw = finished() ? 1 : -1; }
+};
+
+struct SlowWorker : public Thread
+{
+	std::atomic<int>* done;
+	int ms;
+	SlowWorker(std::atomic<int>* d, int m) : done(d), ms(m) {}
+	void run() { struct timespec ts = {0, ms * 1000000L}; nanosleep(&ts, 0); (*done)++; }
 };
 
 static void lifecycle(vf::Ctx& c, int kind, int body, uint64_t pattern)
 {
 	std::string how = setDelays(c, pattern);
 	sched::reset_trace();
-	static const char* KN[] = {"subclass start/join", "lambda thread", "parallel_invoke(2)", "parallel_invoke(3)", "parallel_invoke(4)", "ThreadGroup", "two lambda threads", "subclass restarted", "subclass restarted after finished() was seen, no join() in between"};
+	static const char* KN[] = {"subclass start/join", "lambda thread", "parallel_invoke(2)", "parallel_invoke(3)", "parallel_invoke(4)", "ThreadGroup", "two lambda threads", "subclass restarted", "subclass restarted after finished() was seen, no join() in between", "parallel_invoke(3) whose last function starts a Thread that outlives the call"};
 	c.desc(vf::fmt("%s, body %d, %s", KN[kind], body, how.c_str()));
 	std::atomic<int> runs(0);
 	int out[8] = {0};
@@ -131,6 +178,7 @@ static void lifecycle(vf::Ctx& c, int kind, int body, uint64_t pattern)
 		if (runs != 1) c.fail("thread.run-count", vf::fmt("run() executed %d times", (int)runs));
 		if (out[0] != 41) c.fail("thread.effect-not-visible-after-join", "");
 		if (!w.finished()) c.fail("thread.finished-false-after-join", "subclassed thread");
+		if (w.finishSaw != 1) c.fail("thread.finish-hook", w.finishSaw == 0 ? "finish() was not called before join() returned" : "finished() was false inside the finish() hook");
 		break;
 	}
 	case 1: {
@@ -187,6 +235,22 @@ static void lifecycle(vf::Ctx& c, int kind, int body, uint64_t pattern)
 		if (!w.finished()) c.fail("thread.finished-false-after-join", "restarted thread");
 		break;
 	}
+	case 9: {
+		// while parallel_invoke is still waiting for its last function, that function starts another Thread (which the OS may
+		// give the identity of an already joined one); the new thread outlives the call and is joined by the application
+		std::atomic<int> wdone(0);
+		SlowWorker w(&wdone, 60);
+		auto f1 = [&]() { out[1] = 1; runs++; };
+		auto f2 = [&]() { out[2] = 2; runs++; };
+		auto f3 = [&]() { struct timespec ts = {0, 20000000}; nanosleep(&ts, 0); w.start(); out[3] = 3; runs++; };
+		Thread::parallel_invoke(f1, f2, f3);
+		if (runs != 3) c.fail("parallel_invoke.run-count", vf::fmt("3 functions, %d executions", (int)runs));
+		w.join();
+		if (wdone != 1) c.fail("thread.join-returned-before-run-completed", "a Thread started inside parallel_invoke's last function and joined after the call returned");
+		if (!w.finished()) c.fail("thread.finished-false-after-join", "thread started inside parallel_invoke");
+		{ struct timespec ts = {0, 70000000}; nanosleep(&ts, 0); }   // never leave the worker running into the next case
+		break;
+	}
 	case 8: {
 		// the end of the first run is observed with finished() only; the object is then started again and joined
 		// (the first OS thread is never joined - the API offers no way to - so this scenario is left out of the TSan build, which reports it as a thread leak)
@@ -213,8 +277,9 @@ static void lifecycle(vf::Ctx& c, int kind, int body, uint64_t pattern)
 static void mode_lifecycle(vf::Ctx& c)
 {
 	// systematic: kind x body x delay pattern
-	int kind = (int)(c.idx % 9), body = (int)((c.idx / 9) % 4);
-	uint64_t pat = (c.idx / 36) % 130;   // 0, masks 1..127, 128/129 = random jitter
+	int kind = (int)(c.idx % 10), body = (int)((c.idx / 10) % 4);
+	uint64_t pat = (c.idx / 40) % 130;
+	if (kind == 9 && (body != 0 || pat % 8 != 0)) kind = 2;   // the 80 ms scenario runs for one body and every 8th delay pattern only   // 0, masks 1..127, 128/129 = random jitter
 #if defined(__SANITIZE_THREAD__)
 	if (kind == 8) kind = 7;
 #endif
@@ -434,6 +499,7 @@ int main(int argc, char** argv)
 {
 	vf::Runner R;
 	R.add("pfor", mode_pfor, "parallel_for for every -3<=i0,i1<=40 x threads 1..12");
+	R.add("pfor_mt", mode_pfor_mt, "several application threads calling parallel_for through one call site at once");
 	R.add("pfor_big", mode_pfor_big, "sampled larger ranges and thread counts");
 	R.add("lifecycle", mode_lifecycle, "thread kinds x bodies x delay patterns at the hand-over points");
 	R.add("sem", mode_sem, "Semaphore conservation");
